@@ -251,10 +251,24 @@ pub fn main(args: &util::Args) {
     let total = args.n.unwrap_or(if args.tier == "thorough" { 3000 } else { 300 });
     let dir = util::scratch_dir("c01");
     let mut feats_total: std::collections::BTreeMap<&'static str, usize> = Default::default();
-    for i in 0..total {
+    // … followed by total/6 programs over the rich-generics library (generic functions, methods, types,
+    // inherent impls of single instantiations overlapping the generic impls)
+    for i in 0..total + total / 6 {
         let mut root = crate::rng::Rng::new(args.seed);
         let mut rng = root.fork(i as u64);
-        let cfg = crate::progen::Cfg {
+        let rich = i >= total;
+        let cfg = if rich {
+            crate::progen::Cfg {
+                traits: i % 3 != 0,
+                generics: true,
+                max_depth: 1 + i % 2,
+                effects: true,
+                rich_generics: true,
+                vec_generics: true,
+                overlapping_impls: true,
+                ..Default::default()
+            }
+        } else { crate::progen::Cfg {
             closure_flows: i % 10 == 9,
             traits: i % 3 != 0,
             generics: i % 2 == 0,
@@ -267,12 +281,13 @@ pub fn main(args: &util::Args) {
             nested_patterns: i % 4 == 1,
             logic_rhs_shapes: i % 5 == 2,
             ..Default::default()
-        };
+        } };
         let (src, feats) = crate::progen::gen_program(&mut rng, cfg);
         let id = format!(
-            "gen:{}:{}{}{}{}",
+            "gen:{}:{}{}{}{}{}",
             args.seed,
             i,
+            if rich { ":rg" } else { "" },
             if cfg.closure_flows { ":cf" } else { "" },
             if cfg.wildcard_arrays { ":wa" } else { "" },
             if cfg.lit_field_effects { ":lfe" } else { "" }
